@@ -1,15 +1,20 @@
 /-
   C01 / composition — vocabulary.
 
-  * `BracketsNotNSM`, `BracketClassesOK` — what the theorems need from the data source: a character
-    with the Bidi_Paired_Bracket property is not a non-spacing mark (with such a data source the
-    crate and UAX #9 really differ, see `C01NeutralBN`), and is not a number separator / terminator
-    either (needed by the weak stage's invariants; every real bracket has class ON).
   * `ExplicitShape` — what the explicit stage hands to the weak stage, seen from one isolating run
     sequence of a single-unit text.
   * `WeakOutOK` — the three hypotheses `hK`, `hW`, `hN` of `stageN_bn` for the weak stage's output.
     "The weak stage's output satisfies them" (`WeakInv`) is the one residual hypothesis of the
-    C01 theorems; a separate proof (files `C01WeakInv*`) discharges it.
+    C01 theorems; a separate proof (files `C01WeakInv*`, `C01ComposeWeak.weakInv`) discharges it for
+    every data source.
+  * `BracketsNotNSM`, `BracketClassesOK`, `brkClassOK` — NO LONGER NEEDED by any theorem.  They were
+    what the theorems needed from the data source while the crate's N0 sweep after a changed bracket
+    tested the current type of a unit (`== BN`) and wrote removed units: a character with the
+    Bidi_Paired_Bracket property had to be neither a non-spacing mark nor a number separator /
+    terminator (for such a data source the crate and UAX #9 then differed; every real bracket has
+    class ON, `Props.C01Levels.hardcoded_bracketClassesOK`).  With the sweep looking at original
+    classes only, the C01 theorems hold for every data source.  The definitions are kept for the
+    statements that mention them.
 -/
 import UBidi.Lemmas.C01NeutralBN
 import UBidi.Lemmas.C01WeakSeq
@@ -33,7 +38,7 @@ def brkClassOK (c : BidiClass) : Prop := c ≠ NSM ∧ c ≠ ES ∧ c ≠ CS ∧
 /-- what the explicit stage (X1–X8, with the characters X9 removes retained as BN) hands over, seen
     from one isolating run sequence `seq` of a single-unit text `t`: `ocs` original classes, `pcs0`
     the array the weak stage starts from -/
-structure ExplicitShape (ds : DataSource) (t : Text) (seq : IRSeq) (ocs pcs0 : Classes) : Prop where
+structure ExplicitShape (t : Text) (seq : IRSeq) (ocs pcs0 : Classes) : Prop where
   wf : t.WF
   unit : ∀ s ∈ t.segs, s.len = 1
   bound : ∀ r ∈ seq.runs, r.2 ≤ t.len
@@ -50,9 +55,6 @@ structure ExplicitShape (ds : DataSource) (t : Text) (seq : IRSeq) (ocs pcs0 : C
   /-- a kept character carries its own class or the override's L / R -/
   ov : ∀ i ∈ seq.indices, keepU ocs i = true →
     cget pcs0 i = cget ocs i ∨ cget pcs0 i = L ∨ cget pcs0 i = R
-  /-- the class of a kept bracket character -/
-  brk : ∀ x ∈ seqChars t seq, keepU ocs x.2.start = true → (ds.brk x.2.cp).isSome = true →
-    brkClassOK (cget ocs x.2.start)
 
 /-- the hypotheses `hK`, `hW`, `hN` of `stageN_bn`, for the array `resolve_weak` leaves -/
 def WeakOutOK (ds : DataSource) (t : Text) (seq : IRSeq) (ocs pcs0 : Classes) : Prop :=
@@ -63,11 +65,11 @@ def WeakOutOK (ds : DataSource) (t : Text) (seq : IRSeq) (ocs pcs0 : Classes) : 
   (∀ x ∈ seqChars t seq, keepU ocs x.2.start = true → (ds.brk x.2.cp).isSome = true →
     cget out x.2.start = ON →
     ∀ k ∈ seq.indices, keepU ocs k = true → InTrail seq.indices ocs x.2.start k →
-    ∀ p ∈ seq.indices, x.2.start < p → p < k → keepU ocs p = false → cget out p = BN)
+    ∀ p ∈ seq.indices, x.2.start < p → p < k → keepU ocs p = false → cget out p = BN ∨ cget out p = ON)
 
 /-- **the residual hypothesis**: whatever the explicit stage hands over, the weak stage's output meets
     the hypotheses of the neutral stage's lemma (`weak_hK`, `weak_hW`, `weak_hN`) -/
 def WeakInv (ds : DataSource) : Prop :=
-  ∀ (t : Text) (seq : IRSeq) (ocs pcs0 : Classes), ExplicitShape ds t seq ocs pcs0 → WeakOutOK ds t seq ocs pcs0
+  ∀ (t : Text) (seq : IRSeq) (ocs pcs0 : Classes), ExplicitShape t seq ocs pcs0 → WeakOutOK ds t seq ocs pcs0
 
 end UBidi.Lemmas.C01Compose
